@@ -193,9 +193,12 @@ def install(site, exc, hits, env, garbage=None):
         yield
 
 
-def plant_garbage(d, kind, rng):
+GARBAGE_NAMES = ["state_A.json", "state_zz.json", "snap_000009.json", "other.json"]
+
+
+def plant_garbage(d, kind, rng, name=None):
     os.makedirs(d, exist_ok=True)
-    p = os.path.join(d, rng.choice(["state_A.json", "state_zz.json", "snap_000009.json", "other.json"]))
+    p = os.path.join(d, name or rng.choice(GARBAGE_NAMES))
     if kind == "empty":
         open(p, "w").close()
     elif kind == "truncated":
@@ -213,7 +216,7 @@ def plant_garbage(d, kind, rng):
     elif kind == "dir":
         # not under the name the agent's own snapshot will be written to: the snapshot *body write* is not a
         # declared fail-soft site (a directory in its place makes os.replace fail)
-        p = os.path.join(d, rng.choice(["state_zz.json", "snap_000009.json", "other.json"]))
+        p = os.path.join(d, name if name and name != "state_A.json" else rng.choice(["state_zz.json", "snap_000009.json", "other.json"]))
         os.makedirs(p, exist_ok=True)
     elif kind == "scalar":
         open(p, "w").write("42")
@@ -221,7 +224,7 @@ def plant_garbage(d, kind, rng):
         open(p, "wb").write(b"\x00" * 100)
 
 
-def gen_case(rng, sites=None, exc_i=None):
+def gen_case(rng, sites=None, exc_i=None, garbage=None):
     from vlib.world import gen_world
     from vlib.cfggen import base_cfg, gen_turns
 
@@ -247,7 +250,7 @@ def gen_case(rng, sites=None, exc_i=None):
         t["plan"] = {"ops": [{"kind": "Speak"}, {"kind": "EditGraph"}], "deltas": [["node", f"n:{rng.choice('abcd')}", "weight", rng.choice([0.1, -0.2, 0.3]), 1] for _ in range(rng.randint(1, 3))],
                      "reflection": True}
     return {"world": world, "cfg": cfg, "turns": turns, "sites": list(sites), "exc": exc_i if exc_i is not None else rng.randrange(len(EXCS)),
-            "garbage": rng.choice(GARBAGE), "seed": rng.randint(0, 10 ** 9), "t3_deny": t3_deny}
+            "garbage": (garbage[0] if garbage else rng.choice(GARBAGE)), "garbage_name": (garbage[1] if garbage else None), "seed": rng.randint(0, 10 ** 9), "t3_deny": t3_deny}
 
 
 @contextlib.contextmanager
@@ -288,7 +291,7 @@ def run(case, faulted, sess):
         if boot:
             # the boot loader replaces state.graph; deliver preloaded GEL edges is not needed here
             if faulted and "boot-garbage" in case["sites"]:
-                plant_garbage(env.snap_dir, case["garbage"], rng)
+                plant_garbage(env.snap_dir, case["garbage"], rng, case.get("garbage_name"))
         # plans that use deltas need the store double: store faults are installed per env
         stack = contextlib.ExitStack()
         with stack:
@@ -376,10 +379,11 @@ def _chunk(args):
 
     bootstrap.init()
     sess = Session.worker(PID, tier, seed)
-    for j, (sites, exc_i) in enumerate(jobs):
+    for j, job in enumerate(jobs):
+        sites, exc_i = job[0], job[1]
         rng = random.Random(f"C20/{seed}/{i}/{j}")
         try:
-            check_case(gen_case(rng, sites, exc_i), sess)
+            check_case(gen_case(rng, sites, exc_i, garbage=(job[2] if len(job) > 2 else None)), sess)
         except Exception as ex:
             import traceback
             sess.inconclusive_because(f"harness error {type(ex).__name__}: {ex} @ {traceback.format_exc()[-600:]}")
@@ -399,6 +403,11 @@ def main(tier: str, seed: int):
         for e in types:
             for _ in range(reps if s != "boot-garbage" else max(reps, 5)):
                 plan.append(([s], e))
+    # the boot loader against every (kind of foreign file x file name) - which file wins the "latest" pick depends on both
+    for rep in range(1 if tier == "quick" else 10):
+        for gk in GARBAGE:
+            for gn in GARBAGE_NAMES:
+                plan.append((["boot-garbage"], rng.randrange(len(EXCS)), (gk, gn)))
     for _ in range(40 if tier == "quick" else 10000):
         plan.append((None, None))
     rng.shuffle(plan)
